@@ -211,8 +211,14 @@ def _super_tofrom_choi(q_oper):
     d1 = np.prod(flatten(new_dims[1]))
     s0 = np.prod(dims[0][0])
     s1 = np.prod(dims[1][1])
+    # Tensor indices of a supermatrix are (out, out, in, in) and those of a
+    # Choi matrix (in, out, in, out); only the latter interleave.
+    if q_oper.superrep == 'super':
+        tensor_shape = [s0, s0, s1, s1]
+    else:
+        tensor_shape = [s0, s1, s0, s1]
     data = (
-        data.reshape([s0, s1, s0, s1]).transpose(3, 1, 2, 0).reshape([d0, d1])
+        data.reshape(tensor_shape).transpose(3, 1, 2, 0).reshape([d0, d1])
     )
     return Qobj(data,
                 dims=new_dims,
